@@ -48,6 +48,18 @@ pub fn to_value(v: &RVal) -> Value<'static> {
     }
 }
 
+/// A `str` handed out by the implementation may hold ill-formed UTF-8 (`from_utf8_unchecked`).
+/// Touching such a string with char-level operations is undefined behaviour and, with debug
+/// assertions on, aborts the whole process.  Every string that crosses from the implementation
+/// into the harness goes through here: valid strings are copied, ill-formed ones become a
+/// recognisable lossy marker (which no model value equals, so the case is reported).
+pub fn safe_string(s: &str) -> String {
+    match std::str::from_utf8(s.as_bytes()) {
+        Ok(x) => x.to_string(),
+        Err(_) => format!("ILL-FORMED-UTF8[{}]", refmodel::layout::hex(s.as_bytes())),
+    }
+}
+
 pub fn from_value(v: &Value) -> RVal {
     from_value_opt(v, false)
 }
@@ -62,11 +74,11 @@ fn from_value_opt(v: &Value, raw: bool) -> RVal {
         Value::Null => RVal::Null,
         Value::Bool(b) => RVal::Bool(*b),
         Value::Number(n) => RVal::Num(if raw { from_num_raw(n) } else { from_num(n) }),
-        Value::String(s) => RVal::Str(s.to_string()),
+        Value::String(s) => RVal::Str(safe_string(s)),
         Value::Array(a) => RVal::Arr(a.iter().map(|x| from_value_opt(x, raw)).collect()),
         Value::Object(o) => RVal::Obj(
             o.iter()
-                .map(|(k, x)| (k.clone(), from_value_opt(x, raw)))
+                .map(|(k, x)| (safe_string(k), from_value_opt(x, raw)))
                 .collect(),
         ),
     }
